@@ -97,6 +97,12 @@ fn configs(thorough: bool) -> Vec<(Config, usize)> {
     // two players x two combos (player-vs-player and flop blocking): all windows in thorough,
     // all windows with both ends on a 6-position grid in quick
     v.push((mk(f, vec![vec![(Combo::new(d[0], d[48]), 0.5), (Combo::new(f[0], d[7]), 1.0)], vec![(Combo::new(d[0], d[20]), 1.0), (Combo::new(d[21], d[47]), 0.25)]]), if thorough { 1 } else { 6 }));
+    // one-combo players holding the two LAST unseen cards / the two FIRST ones: the window ends (t,48) and the
+    // starts (0,1), (1,2) fall on blocked positions (a cursor that skips blocked cards can jump over an end)
+    v.push((mk(f, vec![vec![(Combo::new(d[47], d[48]), 1.0)]]), 1));
+    v.push((mk(f, vec![vec![(Combo::new(d[0], d[1]), 0.5)]]), if thorough { 1 } else { 2 }));
+    // three players: a one-combo player on the last unseen card beside two two-combo players
+    v.push((mk(f, vec![vec![(Combo::new(d[24], d[48]), 1.0)], vec![(Combo::new(d[0], d[2]), 0.5), (Combo::new(d[10], d[11]), 1.0)], vec![(Combo::new(d[46], d[47]), 1.0), (Combo::new(d[2], d[30]), 0.25)]]), if thorough { 2 } else { 8 }));
     if thorough {
         // other flops: deck gaps at the front / at the end
         for f in [[0u8, 1, 2], [49, 50, 51]] {
